@@ -1,6 +1,6 @@
 """C07 Output is a pure, repeatable function of inputs and command line (DESIGN.md 6/C07)."""
 from checklib import REPO
-from effects.roots import Analysis, impure_sources
+from effects.roots import Analysis, impure_sources, shared_default_mutations, output_dir_reads
 
 HINTS = {
     "capsule": ["cxxclass", "cxxclass2"],
@@ -46,6 +46,16 @@ def run(ctx):
             ctx.item(ident, not used, "id() inside Scope.trace, which the package calls")
         else:
             ctx.item(ident, False, "impure source reachable in the package: %s" % b["what"])
+    fields, bad = shared_default_mutations(REPO)
+    for f_ in fields:
+        sites = [b for b in bad if ("Typemap.%s:" % f_) in b["what"]]
+        ctx.item("C07/E1/shared-default:Typemap.%s" % f_, not sites,
+                 "; ".join("%s:%d %s" % (b["file"], b["line"], b["what"]) for b in sites[:3]),
+                 sample={"field": f_, "rule": "re-bound, never mutated in place"})
+    reads = output_dir_reads(REPO)
+    ctx.item("C07/E3/emitters-never-read-the-output-directories", not reads,
+             "; ".join("%s:%d %s" % (b["file"], b["line"], b["what"]) for b in reads[:4]),
+             sample={"rule": "open(path, 'w') only; no exists/isfile/stat/listdir/read in util.py and the wrap*.py emitters"})
     ctx.item("C07/E2/no-impure-imports", True, sample={"scan": "time/datetime/environ/getpass/socket/platform/random/uuid/getpid/listdir/glob/getcwd, id(), hash(), set iteration"})
     ctx.trusted += [
         "effect checker (effects/roots.py): name-based alias closure, bottom-up effect summaries; sound under the aliasing "
